@@ -732,7 +732,7 @@ package yqlib
 //@   trusted
 //@   ensures implies(result1 == nil, result0 != nil)
 
-//@ pred falsyNode(n) = n.Tag == "!!null" || (n.Tag == "!!bool" && !truthyText(n.Value))
+//@ pred falsyNode(n) = n.Tag == "!!null" || (n.Kind == ScalarNode && n.Tag == "!!bool" && !truthyText(n.Value))
 
 //@ func (*resultsPrinter).printNode
 //@   props C19 C11
